@@ -19,7 +19,7 @@ ASSUMPTIONS = ["argument expressions are names or literals, so substitution does
 
 
 def budget(tier):
-    return {"examples": 1600 if tier == "quick" else 14000, "wall_s": 110 if tier == "quick" else 1500}
+    return {"examples": 1600 if tier == "quick" else 14000, "wall_s": 110 if tier == "quick" else 900}
 
 
 @st.composite
